@@ -169,7 +169,7 @@ func (e *enc) tr(x Expr, env *Env) Val {
 				e.trFail("index of slice with unknown element type: %s", n.X)
 			}
 			es := e.te.SortOf(et)
-			return Val{T: sel(e.getIn(env.cur, e.memName(es)), "(s-ptr "+v.T+")", "(+ (s-off "+v.T+") "+i.T+")"), S: es, GT: et}
+			return Val{T: sel(e.getIn(env.cur, e.memName(es)), "(s-ptr "+v.T+")", "(sidx (s-off "+v.T+") "+i.T+")"), S: es, GT: et}
 		case strings.HasPrefix(v.S, "(Array "):
 			// (Array K V)
 			vs := arrayValSort(v.S)
@@ -207,6 +207,14 @@ func (e *enc) tr(x Expr, env *Env) Val {
 			_, isBound := env.bound[id.Name]
 			_, isVar := env.vars[id.Name]
 			if !isBound && !isVar {
+				// package-qualified name (valid.cacheStructType): the package-level object, whatever local names shadow it
+				for _, p := range e.v.pkgs {
+					if shortPkg(p.Pkg.Path()) == id.Name {
+						if v, ok := e.pkgObject(p.Pkg, n.Name, env); ok {
+							return v
+						}
+					}
+				}
 				if g, ok := e.v.ct.Ghosts[full]; ok && len(g.Idx) == 0 {
 					e.regGhost(g)
 					return Val{T: e.getIn(env.cur, g.Name), S: sortFromName(g.Val)}
@@ -234,6 +242,13 @@ func (e *enc) tr(x Expr, env *Env) Val {
 		q := "exists"
 		if n.Forall {
 			q = "forall"
+		}
+		if len(n.Trig) > 0 {
+			var ts []string
+			for _, t := range n.Trig {
+				ts = append(ts, e.tr(t, env2).T)
+			}
+			return Val{T: "(" + q + " (" + strings.Join(decl, " ") + ") (! " + b.T + " :pattern (" + strings.Join(ts, " ") + ")))", S: "Bool"}
 		}
 		return Val{T: "(" + q + " (" + strings.Join(decl, " ") + ") " + b.T + ")", S: "Bool"}
 	}
@@ -290,6 +305,14 @@ func (e *enc) trIdent(name string, env *Env) Val {
 	}
 	if v, ok := env.vars[name]; ok {
 		return v
+	}
+	// a local variable that lives in a cell (its address is taken or it is a struct): current value of the cell
+	if av, ok := env.vars["&"+name]; ok && av.A != nil {
+		saved := e.state
+		e.state = env.cur
+		term, ty := e.loadAddr(av.A)
+		e.state = saved
+		return Val{T: term, S: e.te.SortOf(ty), GT: ty}
 	}
 	if e.lets != nil {
 		if v, ok := e.lets[name]; ok {
